@@ -392,6 +392,9 @@ def parseMessage(rawMessage, oobFDs):
 
     m.rawBody = rawMessage[nheader + npad:]
 
+    m.expectReply = not (hval[2] & 0x1)
+    m.autoStart = not (hval[2] & 0x2)
+
     m.serial = hval[5]
 
     for code, v in hval[6]:
